@@ -163,14 +163,14 @@ def _prefilter(XI, VI, RI, X, V, R, SH, VS, line, dtl):
     return rmin <= 1.001 * sr + 1e-9 * scale
 
 
-def has_tie(cfg, t):
+def has_tie(cfg, t, full=False):
     """True if the azimuthal offset of a shear image is not pinned down by the documentation: within 1e-9 of the
     branch point of its normalisation, or t < 0 (the library's formula brings the offset into (-Ly/2, Ly/2] only for
     t >= 0; for negative times it picks the representative one box length further out, which matters when there
-    is no ghost ring in y)."""
+    is no ghost ring in y).  full=True looks at all N_ghost rings (gravity), otherwise at the innermost ring."""
     if cfg["boundary"] == "shear" and t < 0 and max(cfg["nghost"]) > 0:
         return True
-    return any(amb for _, _, amb in images(cfg, t))
+    return any(amb for _, _, amb in images(cfg, t, full=full))
 
 
 def classify_pairs(s, cfg, t, mode, dtl, colliders=None):
